@@ -102,6 +102,9 @@ let hist fuel (kbx : Sexp.t) (ops : Sexp.t list) : string * Sexp.t * Sexp.t =
               | L [A "varid"] -> L [A "varid"; varid ()]
               | x -> bad ("hist op: " ^ Sexp.to_string x))
            with Stop s -> flush_out (); obs := s :: !obs; raise Exit in
+         (match op with
+          | L (A ("ask" | "solve" | "solve-all") :: _) -> w := { !w with stop_after = None }
+          | _ -> ());
          flush_out ();
          obs := o :: !obs) ops
    with Exit -> ());
